@@ -49,9 +49,13 @@ BRACKET_ENS = ["(result[0] is None and result[1] == string) or (result[0] is not
 contract(
     Q + "QFunction.check",
     params={"string": "str"}, returns="Tuple[Optional[str], str]", requires=[],
-    ensures=BRACKET_ENS, modifies=[], raises=[],
-    loops={0: dict(index="k", invariant=["0 <= i and i <= k"]),
-           1: dict(index="k2", invariant=["0 <= i"])},
+    # (a call token is complete too: it ends with the parenthesis that closes the argument list)
+    ensures=BRACKET_ENS + ["result[0] is None or (len(result[0]) >= 2 and result[0][len(result[0]) - 1] == ')')"],
+    modifies=[], raises=[],
+    ghost_vars={"i1": ("int", "0")},
+    ghost_code=[dict(after="prev_char = None", code="i1 = i")],
+    loops={0: dict(index="k", invariant=["0 <= i and i <= k", "not found"]),
+           1: dict(index="k2", invariant=["i == i1 + k2 and 1 <= i1 and i1 <= len(string)", "to_consume >= 1"])},
 )
 # a dict / list token is a complete bracketed text: it starts with the opening bracket and ends with a closing one (an unclosed
 # literal is no token - the defect repaired in e01fcad made `[` a list token)
